@@ -132,3 +132,25 @@ Example ex_view_cached :
   (length (backends exg_w) = 2)%nat ∧ (access exg_w 0).1.2 = true ∧ (access (access exg_w 0).1.1 0).1.2 = false ∧
   tsgraph (hypergraph_to_species_graph false (access (access exg_w 0).1.1 0).2) = tsgraph exg_sg.
 Proof. split_and!; by vm_compute. Qed.
+
+(** every store operation either counts itself ([bumps] says which network's `_version` moves) or leaves every export of every
+    network unchanged — so a cached view whose version is current can only be the current export.  (The copy into a slot re-binds
+    the slot to a new object, whose backends are re-created; the caller-side coefficient edits are the known finding.) *)
+Lemma version_or_unchanged (w : world2) (o : op2) :
+  view_safe (O2 o) → (∀ i j, o ≠ OBase (OCopy i j)) →
+  bumps w o (step2 w o).1.1 (step2 w o).1.2 = None →
+  ∀ (k : nat) (fl : bflags) (b : bool),
+    hypergraph_to_bipartite fl (getn (nets (step2 w o).1.1) k) = hypergraph_to_bipartite fl (getn (nets w) k) ∧
+    hypergraph_to_species_graph b (getn (nets (step2 w o).1.1) k) = hypergraph_to_species_graph b (getn (nets w) k).
+Proof.
+  intros Hs Hnc Hb k fl b. pose proof (unbumped_same w o Hs Hnc Hb k) as Hsame.
+  split; [by apply same_content_bipartite|by apply same_content_species_graph].
+Qed.
+(** non-vacuity: on the network of [exg_w], a remove_rxn of a missing id and a query count nothing (and change nothing), while
+    remove_species(x, prune_orphans=False) of a species that shares its reactions — no reaction dies — DOES count *)
+Example ex_version_nonvacuous :
+  bumps (w2 exg_w) (OBase (ORemoveRxn 0 "nope")) (step2 (w2 exg_w) (OBase (ORemoveRxn 0 "nope"))).1.1 (step2 (w2 exg_w) (OBase (ORemoveRxn 0 "nope"))).1.2 = None ∧
+  bumps (w2 exg_w) (OBase (ORemoveSpecies 0 "B" false)) (step2 (w2 exg_w) (OBase (ORemoveSpecies 0 "B" false))).1.1
+        (step2 (w2 exg_w) (OBase (ORemoveSpecies 0 "B" false))).1.2 = Some 0%nat ∧
+  size (edges (getn (nets (step2 (w2 exg_w) (OBase (ORemoveSpecies 0 "B" false))).1.1) 0)) = size (edges (getn (nets (w2 exg_w)) 0)).
+Proof. split_and!; by vm_compute. Qed.
